@@ -1840,6 +1840,9 @@ def _divisions_from_statistics(aggregated_stats, index_name):
         file_min = file_stats["columns"][col_ix]["statistics"]["min"]
         file_max = file_stats["columns"][col_ix]["statistics"]["max"]
 
+        if file_min is None or file_max is None:
+            # e.g. a file without rows: the divisions are unknown
+            return tuple([None] * (len(aggregated_stats) + 1)), None
         minmax.append((file_min, file_max))
     divisions = []
     minmax = pd.Series(minmax)
@@ -1898,9 +1901,16 @@ def _extract_stats(original):
             rg_out["columns"].append(col_out)
             for name in col_meta:
                 col_out[name] = col[name]
+            # A column chunk has no statistics when the row group is empty or
+            # when the writer did not record them
+            stats = col["statistics"]
+            if stats is None and col["num_values"] == 0:
+                stats = {"num_values": 0, "null_count": 0}
+            elif stats is None:
+                stats = {}
             col_out["statistics"] = {}
             for name in col_stats:
-                col_out["statistics"][name] = col["statistics"][name]
+                col_out["statistics"][name] = stats.get(name)
 
     return out
 
@@ -1940,14 +1950,24 @@ def _aggregate_columns(cols, agg_cols):
 def _aggregate_statistics_to_file(stats):
     """Aggregate RG information to file level."""
 
-    agg_stats = {
-        "min": min,
-        "max": max,
-    }
+    def agg_min_max(stats):
+        # Row groups without a single valid value (no rows, or only missing
+        # values) have no min/max and do not contribute. The bounds of the file
+        # are unknown as soon as any other row group does not report them.
+        stats = [s for s in stats if s.get("num_values") != 0]
+        if not stats or any(
+            s.get("min") is None or s.get("max") is None for s in stats
+        ):
+            return {"min": None, "max": None}
+        return {
+            "min": min(s["min"] for s in stats),
+            "max": max(s["max"] for s in stats),
+        }
+
     agg_cols = {
         "total_compressed_size": sum,
         "total_uncompressed_size": sum,
-        "statistics": partial(_agg_dicts, agg_funcs=agg_stats),
+        "statistics": agg_min_max,
         "path_in_schema": lambda x: set(x).pop(),
     }
     agg_func = {
